@@ -184,7 +184,8 @@ Holds(e, name) ==
     [] name = "C12_ExplicitBCs" ->
          C03_Robin(g, bc, FieldOf(g, o.r_explicit)) /\ C03_Periodic(g, bc, FieldOf(g, o.r_explicit))
     [] name = "C12_InputUntouched" ->
-         o.flags.explicit_input_untouched /\ o.flags.explicit_new_object
+         /\ o.flags.explicit_input_untouched /\ o.flags.explicit_new_object
+         /\ o.flags.explicit_rhs_untouched /\ o.flags.explicit_repeat_same
     [] name = "C12_ExplicitUsable" ->
          /\ o.flags.explicit_then_implicit = "ok"
          /\ C04_Solves(g, FieldOf(g, cf.xstar), FieldOf(g, o.r_after_explicit))
